@@ -87,7 +87,7 @@ func tierFor(prop, tier string) tierCfg {
 		}
 	case "C15":
 		t.race = true
-		t.raceRuns = 1500
+		t.raceRuns = 3000
 		if tier == "thorough" {
 			t.raceRuns = 40000
 		}
